@@ -454,7 +454,7 @@ func c08NameProbes(c *core.Ctx) {
 						}
 						// the interface list first on every other case: its values then meet a root that has bound nothing yet
 						text := "{cats{__typename ... on Lynx{name} ... on SnowLynx{name} ... on LynxCub{name}} beasts{__typename name ... on LynxCub{n2: name}}}"
-						if idx%2 == 0 {
+						if beastsFirst {
 							text = "{beasts{__typename name ... on LynxCub{n2: name}} cats{__typename ... on Lynx{name} ... on SnowLynx{name} ... on LynxCub{name}}}"
 						}
 						var res map[string]interface{}
